@@ -251,10 +251,16 @@ def check_exponents(job):
     statics = statics_from(text, parse_allocs(text))
     solver = Solver(tmo, both)
     osolver = Solver(oblig_tmo)
+    psolver = Solver(3000)
+    import mir2smt as M
+    def prover(ctx, cond):
+        r, _ = psolver.query(ctx.script(["(not %s)" % cond]))
+        return r == "unsat"
+    M.PROVER = prover
     rnd = random.Random(int(os.environ.get("VERIF_SEED", "0") or 0) * 7919 + (exps[0] if exps else 0))
     res = {"validation": {"runs": 0, "reached_interpreted": 0, "mismatches": []}, "violations": [], "unknown": [], "errors": [], "decided_returns": 0, "opaque_returns": 0, "err_returns": 0, "paths": 0,
            "oblig_unsat": 0, "oblig_unknown": {}, "oblig_sat": [], "queries": 0, "solver_s": 0.0, "fast_exps": [], "cache_hits": 0,
-           "opaque_calls": set(), "interpreted": set(), "unsupported": [], "unrealisable": []}
+           "opaque_calls": set(), "interpreted": set(), "unsupported": [], "unrealisable": [], "unsupported_paths": {}}
     for e in exps:
         use_lemire = lemire_range is not None and lemire_range[0] <= e <= lemire_range[1]
         ip = Interp(fns, consts, statics, interpret + (LEMIRE if use_lemire else []))
@@ -264,11 +270,12 @@ def check_exponents(job):
         w = ctx.fresh("w", 1, 10 ** 19 - 1)
         neg = ctx.fresh("neg", None, None, "Bool")
         trunc = ctx.fresh("trunc", None, None, "Bool")
+        ctx.cons.append("(not %s)" % trunc.s)      # the claim is about significands with no digit dropped
         ctx.base = len(ctx.cons)
         f = ip.find_fn("parse_float")
         try:
-            outs = list(ip.run_fn(f, [w, e, neg, trunc, Opq("raw_num")], ctx))
-        except Unsupported as ex:
+            outs = list(ip.run_fn(f, [w, e, neg, False, Opq("raw_num")], ctx))
+        except (Unsupported, PathLimit) as ex:
             res["unsupported"].append((e, str(ex)))
             continue
         res["paths"] += len(outs)
@@ -280,6 +287,19 @@ def check_exponents(job):
                 res["opaque_returns"] += 1
             elif u == "err":
                 res["err_returns"] += 1
+                if c.cache.get(("isinf_decided",)):
+                    # rejected as non-finite by interpreted code: only right if the exact value rounds to infinity
+                    thr = 2 ** 1024 - 2 ** 970
+                    finite = "(< (* %d %s) %d)" % (10 ** e, w.s, thr) if e >= 0 else "(< %s %d)" % (w.s, thr * 10 ** (-e))
+                    r, _ = solver.query(c.script(["(not %s)" % trunc.s, finite]))
+                    res["decided_returns"] += 1
+                    if r == "sat":
+                        vals = concretise(solver, c, w, neg, trunc, ["(not %s)" % trunc.s, finite], e)
+                        (res["violations"] if vals else res["unrealisable"]).append({"exp10": e, "w": (vals or {}).get(w.s), "neg": (vals or {}).get(neg.s), "kind": "rejected as infinite although the nearest double is finite", "trace": c.trace})
+                    elif r == "unknown":
+                        res["unknown"].append((e, "finite-rejected"))
+                    elif r != "unsat":
+                        res["errors"].append((e, r))
             elif u is None:
                 res["unsupported"].append((e, "return shape %r" % (rv,)))
             else:
@@ -297,7 +317,7 @@ def check_exponents(job):
                 # the magnitude: first under the callee's constraints only (shared by all the
                 # routes that reach the callee), then, if that is not unsat, under the whole path
                 c2 = c.fork()
-                spec = "(not %s)" % rounding_spec(c2, raw, w, e)
+                spec = "(and (not %s) (not %s))" % (trunc.s, rounding_spec(c2, raw, w, e))
                 verdict = None
                 if c2.mark is not None:
                     key = canon(c2.script([spec], only_callee=True))
@@ -361,10 +381,12 @@ def check_exponents(job):
                     seen_ob.add(ck)
             else:
                 res["errors"].append((e, r))
+        for u in ip.unsupported_paths:
+            res["unsupported_paths"][u] = res["unsupported_paths"].get(u, 0) + 1
         res["opaque_calls"] |= ip.opaque_calls
         res["interpreted"] |= ip.interpreted_calls
-    res["queries"] = solver.n + osolver.n
-    res["solver_s"] = solver.time + osolver.time
+    res["queries"] = solver.n + osolver.n + psolver.n
+    res["solver_s"] = solver.time + osolver.time + psolver.time
     res["opaque_calls"] = sorted(res["opaque_calls"]); res["interpreted"] = sorted(res["interpreted"])
     res["solver_calls"] = dict(STATS)
     return res
@@ -404,6 +426,10 @@ def main():
     tot["unrealisable"] = sum((p["unrealisable"] for p in parts), [])
     tot["validation"] = {"runs": sum(p["validation"]["runs"] for p in parts), "reached_interpreted": sum(p["validation"]["reached_interpreted"] for p in parts),
                          "mismatches": sum((p["validation"]["mismatches"] for p in parts), [])}
+    tot["unsupported_paths"] = {}
+    for p in parts:
+        for k, v in p["unsupported_paths"].items():
+            tot["unsupported_paths"][k] = tot["unsupported_paths"].get(k, 0) + v
     tot["n_fast_exps"] = len(tot["fast_exps"])
     tot["fast_exps_range"] = [tot["fast_exps"][0], tot["fast_exps"][-1]] if tot["fast_exps"] else None
     tot["solver_calls"] = {k: sum(p["solver_calls"][k] for p in parts) for k in ("z3", "cvc5")}
@@ -418,13 +444,15 @@ def main():
     tot["wall_s"] = round(time.time() - t0, 1)
     tot["solver"] = subprocess.run([Z3, "--version"], capture_output=True, text=True).stdout.strip()
     json.dump(tot, open(a.out, "w"), indent=1, default=str)
-    print("[smt] exponents %d..%d: %d paths, %d returns decided (%d exponents reach an interpreted constructor), %d opaque, %d obligations unsat, %d unknown kinds, %d queries, solver %.1fs, wall %.1fs"
-          % (a.emin, a.emax, tot["paths"], tot["decided_returns"], len(tot["fast_exps"]), tot["opaque_returns"], tot["oblig_unsat"], len(tot["oblig_unknown"]), tot["queries"], tot["solver_s"], tot["wall_s"]))
+    print("[smt] %d exponents in %d..%d: %d paths, %d returns decided (%d exponents reach an interpreted constructor), %d opaque, %d obligations unsat, %d unknown kinds, %d queries, solver %.1fs, wall %.1fs"
+          % (len(exps), min(exps), max(exps), tot["paths"], tot["decided_returns"], len(tot["fast_exps"]), tot["opaque_returns"], tot["oblig_unsat"], len(tot["oblig_unknown"]), tot["queries"], tot["solver_s"], tot["wall_s"]))
     for v in tot["violations"][:5] + tot["oblig_sat"][:5]:
         print("[smt] counterexample:", json.dumps(v))
     for k in ("unknown", "errors", "unsupported"):
         if tot[k]:
             print("[smt] %s: %s" % (k, tot[k][:5]))
+    if tot["unsupported_paths"]:
+        print("[smt] paths ended at an operator the translator does not model (not part of the claim):", tot["unsupported_paths"])
 
 if __name__ == "__main__":
     main()
